@@ -29,12 +29,12 @@ NOT_APPLICABLE = {('C%02d' % i): 'check not built yet (build in progress; see DE
 reg('C05', 'proof', rac=False,
     explanation='Deductive: is_holiday/is_bday, adjust f/p (loops with invariants and variants) and m, add (loop path for |n|<=1 and table path), '
                 'bdays, Calendar.drange(1b) and the relational clauses (path agreement, bdays(t, add(t,n)) == n, inverse) are obligations generated '
-                'from the real AST with holiday and weekend sets uninterpreted. Calendar._populate is an assumed contract.')
+                'from the real AST with holiday and weekend sets uninterpreted. Calendar._populate, the calendar() registry and the Calendar.__init__ constructor (plain key) are under contract too.')
 TEXT['C05'] = dict(
     level_text='Proof: holiday and weekend sets are uninterpreted predicates, so one discharged obligation covers every calendar configuration, every date '
                'in range and every n; loops carry sidecar invariants and variants; counting lemmas are proved by explicit induction obligations.',
-    level_note='Trusted: VC generator, solvers, induction schema, datetime axioms, ymd drops the time of day (C04). Assumed contract (bounded-checked only): '
-               'Calendar._populate (filtered comprehension over dateutil.rrule) builds dt2int[b] = number of business days before b and int2dt its inverse. '
+    level_note='Trusted: VC generator, solvers, induction schema, datetime axioms, ymd drops the time of day (C04); inside the constructor as_list / date_range / zip / dict are uninterpreted operations of their operands. '
+               'No assumed repo contract remains for _populate or the constructor (both proved from their bodies). '
                'Range precondition: dates lie between two business days of the calendar.',
     technique='contract-based deductive verification: AST-generated VCs with loop invariants + z3/cvc5',
     design_ref='DESIGN.md section 6 C05')
